@@ -274,7 +274,12 @@ def rule_y5(chk: Check) -> None:
     okp = False
     for c in [x for x in ast.walk(fi.node) if isinstance(x, ast.Call)]:
         if (dotted(c.func) or "").split(".")[-1] == "ProxyHandler":
-            okp = all(dotted(kwarg(c, k)) == f"loc.{k}" for k in ("upstream", "prefix", "strip_prefix", "timeout"))
+            # all four settings come from one and the same location object (whatever it is called)
+            bases = set()
+            for k in ("upstream", "prefix", "strip_prefix", "timeout"):
+                d = dotted(kwarg(c, k)) or ""
+                bases.add(d[: -len(k) - 1] if d.endswith("." + k) else f"?{k}")
+            okp = len(bases) == 1 and not next(iter(bases)).startswith("?") and "." not in next(iter(bases))
     if not okp:
         chk.finding("Y5", fi.key, "proxy-wiring", "a proxy location's upstream/prefix/strip_prefix/timeout do not reach the ProxyHandler unchanged", fi.loc())
     chk.ob("Y5", "ProxyHandler wired from its location", okp)
